@@ -1097,7 +1097,7 @@ let suite_http t v =
   let exists = ni t in
   expect t "=";
   let status = ni t in let outside = nb t in let changed = nb t in
-  let sources = if srcsv = 0 then [] else [segz "good"; segz "oth/er"] in
+  let sources = if srcsv = 0 then [] else if srcsv = 1 then [segz "good"; segz "oth/er"] else [segz "site.alpha"; segz "b1/c2"; segz "good"] in
   let keys = if keysv = 0 then [] else [segz "k1"; segz "k2"] in
   let cs = source <> "" && String.for_all (fun c -> (c >= 'a' && c <= 'z') || (c >= '0' && c <= '9') || c = '.' || c = '-' || c = '/') source in
   let ssegs = List.map segz (split_on ['/'; '\\'] source) in
@@ -1117,7 +1117,7 @@ let suite_http t v =
       if status <> decision && not (static && status >= 301 && status <= 308) then diff v "refusal-code"
     end else begin
       match route with
-      | "data" | "recovery" ->
+      | "data" | "recovery" | "data2" | "data3" ->
           let n' = go_split_join name sep and p' = go_split_join prev sep in
           let ok = local_name n' && (p' = "" || local_name p') && (renamed = "" || local_name renamed) in
           if ok then (if refused && status <> 206 && status <> 500 then diff v "local-name-refused")
@@ -1140,6 +1140,102 @@ let suite_http t v =
   v.cls <- "D";
   v.nontrivial <- decision <> 0 || String.contains name '.' || String.contains source '.'
 
+(* ============================ suite N : scanner histories (C17) ================ *)
+let suite_scan t v =
+  let minage = ni t in
+  let hidden = nb t in
+  let hasinc = nb t in
+  let nops = ni t in
+  let ops = times nops (fun () -> String.split_on_char ',' (next t)) in
+  expect t "=";
+  let nscans = ni t in
+  let iscans = times nscans (fun () ->
+    let n = ni t in
+    times n (fun () -> let name = str_of_hex (next t) in let size = ni t in let mt = ni t in let hok = ni t in (name, size, mt, hok))) in
+  (* attributes of a name under this configuration (the regular expressions of the
+     driver: ignore \.skip$ + standard \.lck$ and .disabled; include (^|/)inc) *)
+  let starts p s = String.length s >= String.length p && String.sub s 0 (String.length p) = p in
+  let ends p s = let lp = String.length p and ls = String.length s in ls >= lp && String.sub s (ls - lp) lp = p in
+  let attrs name =
+    let segs = String.split_on_char '/' name in
+    let rec split_last = function [x] -> ([], x) | x :: r -> let (d, b) = split_last r in (x :: d, b) | [] -> ([], "") in
+    let (dirs, base) = split_last segs in
+    let ign s = ends ".skip" s || ends ".lck" s in
+    (* a directory is skipped when it is hidden (and hidden files are off) or matches an ignore pattern;
+       prefixes of the relative path are what the patterns see *)
+    let rec prefixes acc = function [] -> [] | d :: r -> let p = if acc = "" then d else acc ^ "/" ^ d in p :: prefixes p r in
+    let skipped = List.exists (fun p -> let b = List.hd (List.rev (String.split_on_char '/' p)) in
+                                 ((not hidden) && starts "." b) || ign p || b = ".disabled") (prefixes "" dirs) in
+    let hid = starts "." base in
+    let ignored = ign name || base = ".disabled" in
+    let included = List.exists (fun sg -> starts "inc" sg) segs in
+    (hid, skipped, ignored, included) in
+  (* replay the history: world = name -> (size, mtime_rel_ms) *)
+  let world = Hashtbl.create 16 in
+  let disabled = ref false in
+  let cache = ref [] in
+  let last = Hashtbl.create 16 in          (* oracle state: the version returned last, from the IMPLEMENTATION's outputs *)
+  let iscans = ref iscans in
+  let k = ref 0 in
+  let name_z s = List.init (String.length s) (fun i -> z_of_int (Char.code s.[i])) in
+  List.iter (fun op ->
+    match op with
+    | ["W"; n; sz; age] | ["P"; n; sz; age] -> Hashtbl.replace world (str_of_hex n) (int_of_string sz, - (int_of_string age))
+    | ["A"; n; ex; age] ->
+        let n = str_of_hex n in
+        (match Hashtbl.find_opt world n with
+         | Some (sz, _) -> Hashtbl.replace world n (sz + int_of_string ex, - (int_of_string age))
+         | None -> ())
+    | ["T"; n; age] ->
+        let n = str_of_hex n in
+        (match Hashtbl.find_opt world n with
+         | Some (sz, _) -> Hashtbl.replace world n (sz, - (int_of_string age))
+         | None -> ())
+    | ["R"; n] -> Hashtbl.remove world (str_of_hex n)
+    | ["L"; n; sz] -> Hashtbl.replace world (str_of_hex n) (int_of_string sz, -3600000)
+    | ["D"; x] -> disabled := (x = "31")
+    | ["S"] ->
+        incr k;
+        let names = List.sort compare (Hashtbl.fold (fun n _ acc -> n :: acc) world []) in
+        let dfiles = List.map (fun n ->
+          let (sz, mt) = Hashtbl.find world n in
+          let (hid, skipped, ignored, included) = attrs n in
+          (* a symbolic link's own age is that of its creation: the driver only uses links with minage 0 *)
+          let mt_age = if n = "lnk" then 0 else mt in
+          ignore mt_age;
+          { M.df_name = name_z n; df_size = z_of_int sz; df_mtime = z_of_int mt;
+            df_hidden = hid; df_skipped = skipped; df_ignored = ignored; df_included = included }) names in
+        let cfg = { M.sc_disabled = !disabled; sc_hidden = hidden; sc_hasinc = hasinc; sc_minage = z_of_int minage } in
+        let (ret, c') = M.scan_once cfg (z_of_int 0) dfiles !cache in
+        cache := c';
+        let mret = List.sort compare (List.map (fun d ->
+          (String.init (List.length d.M.df_name) (fun i -> Char.chr (int_of_z (List.nth d.M.df_name i))), int_of_z d.M.df_size, int_of_z d.M.df_mtime)) ret) in
+        let iret = (match !iscans with x :: r -> iscans := r; x | [] -> raise (Malformed "scan outputs")) in
+        let iret3 = List.sort compare (List.map (fun (n, s, m, _) -> (n, s, m)) iret) in
+        if iret3 <> mret then diff v (Printf.sprintf "scan-%d-returned-set" !k);
+        (* oracles on what the implementation returned *)
+        List.iter (fun (n, s, m, hok) ->
+          let (hid, skipped, ignored, included) = attrs n in
+          let elig = (not !disabled) && (not skipped) && (hidden || not hid) && (not ignored) && ((not hasinc) || included)
+                     && s > 0 && (n = "lnk" || - m >= minage) in
+          if not elig then oracle v "ineligible_file_queued" (List.mem (n, s, m) mret);
+          if Hashtbl.find_opt last n = Some (s, m) then oracle v "unchanged_file_queued_again" (List.mem (n, s, m) mret);
+          if hok <> 1 then oracle v "queued_with_hash_of_other_content" false;
+          (match Hashtbl.find_opt world n with
+           | Some (s', m') when s' = s && m' = m -> ()
+           | _ -> oracle v "queued_version_not_on_disk" false)) iret;
+        List.iter (fun n ->
+          let (sz, mt) = Hashtbl.find world n in
+          let (hid, skipped, ignored, included) = attrs n in
+          let elig = (not !disabled) && (not skipped) && (hidden || not hid) && (not ignored) && ((not hasinc) || included)
+                     && sz > 0 && (n = "lnk" || - mt >= minage) in
+          if elig && Hashtbl.find_opt last n <> Some (sz, mt) && not (List.mem (n, sz, mt) iret3) then
+            oracle v "new_or_changed_eligible_file_not_queued" (not (List.mem (n, sz, mt) mret))) names;
+        List.iter (fun (n, s, m, _) -> Hashtbl.replace last n (s, m)) iret
+    | _ -> raise (Malformed "scan op")) ops;
+  v.cls <- "D";
+  v.nontrivial <- nscans >= 2
+
 (* ============================ dispatch ====================================== *)
 let run_line line =
   let t = mk line in
@@ -1155,6 +1251,7 @@ let run_line line =
       | "E" -> suite_e2e t v
       | "F" -> suite_conf t v
       | "H" -> suite_http t v
+      | "N" -> suite_scan t v
       | "LC" -> suite_log_conc t v
       | s -> raise (Malformed ("unknown suite " ^ s)))
    with
